@@ -198,8 +198,8 @@ class _CanAssignBasedContext:
         *,
         code: Error = ErrorCode.incompatible_call,
         node: Optional[ast.AST] = None,
-        detail: Optional[str] = ...,
-        replacement: Optional[Replacement] = ...,
+        detail: Optional[str] = None,
+        replacement: Optional[Replacement] = None,
     ) -> object:
         self.errors.append(message)
         return None
@@ -220,7 +220,7 @@ class _VisitorBasedContext:
         *,
         code: Error = ErrorCode.incompatible_call,
         node: Optional[ast.AST] = None,
-        detail: Optional[str] = ...,
+        detail: Optional[str] = None,
         replacement: Optional[Replacement] = None,
     ) -> None:
         if node is None:
